@@ -727,6 +727,9 @@ class PipeOps(FullOps):
                 flat.append(a)
         if lib == "torch.autograd." and fn in ("grad", "backward"):
             return self.autograd(fn, args, kwargs, node, env)
+        if lib == "torch." and fn == "is_tensor" and len(args) == 1:
+            # torch.is_tensor(x) is isinstance(x, torch.Tensor)
+            return self.call_builtin("isinstance", [args[0], ExtV("torch.Tensor")], {}, node, env)
         if fn == "vmap":
             self.pev("vmap", node, kwargs={k: repr(v) for k, v in kwargs.items()})
             return VmapV(args[0])
